@@ -55,7 +55,7 @@ def build_vocab() -> List[Tuple[Any, Tuple, Dict[str, Any]]]:
                     for addr in (b"\x01\x02\x03\x04", b"\x01\x02\x03\x05"):
                         add(d.DNSAddress(name, 1, cls, ttl, addr, created=created), "ADDR", name, 1, cls, (addr, None), dict(base, rd=("addr", addr)))
                     for addr in (b"\xfe\x80" + b"\0" * 13 + b"\x01", b"\xfe\x80" + b"\0" * 13 + b"\x02"):
-                        for scope in (None, 1, 2):
+                        for scope in (None, 0, 1, 2):
                             add(d.DNSAddress(name, 28, cls, ttl, addr, scope_id=scope, created=created), "ADDR", name, 28, cls,
                                 (addr, scope), dict(base, rd=("addr6", addr, scope)))
                     for t in (12, 5):
